@@ -27,6 +27,10 @@ type VerifUniverse struct {
 	StubEnums map[string][]string
 	// StubOneofs: messages referenced but not defined that are j5 oneof wrappers
 	StubOneofs map[string]bool
+	// fake extension options per element (fakeopts.go) and the order in which
+	// Range visits them (nil: as given)
+	fakeOpts    map[string][]VerifFakeOption
+	OptionOrder func(n int) []int
 }
 
 func VerifNewUniverse(fdps ...*descriptorpb.FileDescriptorProto) *VerifUniverse {
@@ -276,6 +280,9 @@ func (m *VerifMessage) Parent() protoreflect.Descriptor {
 	return m.parent
 }
 func (m *VerifMessage) Options() protoreflect.ProtoMessage {
+	if o, ok := m.file.u.fakeOptionsOf(m.full); ok {
+		return o
+	}
 	if m.dp.Options == nil {
 		return (*descriptorpb.MessageOptions)(nil)
 	}
@@ -370,6 +377,9 @@ func (f *VerifField) JSONName() string {
 }
 func (f *VerifField) TextName() string { return f.fd.GetName() }
 func (f *VerifField) Options() protoreflect.ProtoMessage {
+	if o, ok := f.msg.file.u.fakeOptionsOf(string(f.FullName())); ok {
+		return o
+	}
 	if f.fd.Options == nil {
 		return (*descriptorpb.FieldOptions)(nil)
 	}
